@@ -322,12 +322,19 @@ def run_core(c):
             assign.append([t, ring, p, {'flowrate': flows[i]}])
             power[str(i + 1)] = spec_from(wmap[i])
         setup = {'param_update_tol': c['tol']} if c.get('tol') else {}
+        if c.get('starved') is not None:
+            setup['conv_approx'] = True
         return {'setup': setup, 'core': {'inlet': 623.15, 'length': L, 'pitch': 0.064, 'gap_model': gm,
                                           'bypass_fraction': 0.0 if gm == 'none' else 0.05,
                                           'coolant': c.get('coolant', 'sodium_se2anl_425')},
                 'types': {t: types[t] for t in sorted(set(x for x in layout if x))},
                 'assign': assign, 'power': {'asm': power}}
     flows0 = {i: round(0.8 + 0.11 * ((i * 3) % 7), 4) for i, t in enumerate(lay) if t}
+    if c.get('starved') is not None:
+        # one assembly far below the others: with the low-flow convection approximation requested, only
+        # that assembly falls under the cut-off, wherever the rotation puts it in the position order
+        flows0[c['starved']] = 0.05
+        base_w[c['starved']] = {k: v * 0.05 for k, v in base_w[c['starved']].items()}
     base, rx0, n = sweep_record(scn_for(lay, base_w, flows0))
     # binding of frames: the published assembly centres are the harness's hex positions x pitch,
     # and local side s (clockwise from the top corner) faces the neighbour listed for side s
@@ -426,6 +433,13 @@ def cases(tier):
             for gm in ('flow', 'no_flow', 'duct_average'):
                 core.append(dict(layout=lay, gap_model=gm, elements=[1, 2, 3, 4, 5]))
         core.append(dict(layout=(['A', 'B', 'A'] * 7)[:19], gap_model='flow', elements=[1, 3]))
+        # several positions of one double-duct type with different flows (clones of one template)
+        for gm in ('flow', 'none'):
+            core.append(dict(layout=['D', 'D', 'A', 'D', 'B', 'D', 'A'], gap_model=gm, elements=[1, 2]))
+        # low-flow approximation requested, one starved assembly
+        for st in (2, 5):
+            core.append(dict(layout=['A'] * 7, gap_model='flow', elements=[1, 2, 3], starved=st))
+        core.append(dict(layout=['A', 'B', 'A', 'B', 'A', 'B', 'A'], gap_model='none', elements=[1, 4], starved=3))
         lay19 = (['A', 'B', 'A', 'A', 'B'] * 4)[:19]
         for vac, gm in ((0, 'no_flow'), (4, 'duct_average'), (11, 'flow')):
             lay = list(lay19)
@@ -450,6 +464,14 @@ def cases(tier):
             for tol in (0.0, 0.01, 0.05):
                 for gm in ('flow', 'none', 'no_flow'):
                     core.append(dict(layout=lay, gap_model=gm, elements=[1, 2, 3, 4, 5], coolant='sodium', tol=tol))
+        for gm in ('flow', 'none', 'no_flow'):
+            for lay in (['D', 'D', 'A', 'D', 'B', 'D', 'A'], ['D'] * 7, ['A', 'D', 'D', None, 'D', 'B', 'D']):
+                core.append(dict(layout=lay, gap_model=gm, elements=[1, 2, 3, 4, 5]))
+        for st in range(7):
+            for gm in ('flow', 'none'):
+                core.append(dict(layout=['A'] * 7, gap_model=gm, elements=[1, 2, 3, 4, 5], starved=st))
+                core.append(dict(layout=['A', 'B', 'A', 'B', 'A', 'B', 'A'], gap_model=gm, elements=[1, 2, 3, 4, 5],
+                                 starved=st))
         pat = (['A', 'B', 'A', 'A', 'B'] * 4)[:19]
         core.append(dict(layout=pat, gap_model='flow', elements=[1, 2, 3, 4, 5]))
         for vac in range(19):
